@@ -99,7 +99,8 @@ class Gen:
     def lit_str(self):
         """a Java string literal; the escapes sit anywhere, also at the very start and the very end"""
         body = self.word()
-        extra = self.r.choice(["", " x", "\\\"q\\\"", "\\\\", " in ", "a,b", "(", "WHERE x SELECT"])
+        extra = self.r.choice(["", " x", "\\\"q\\\"", "\\\\", " in ", "a,b", "(", "WHERE x SELECT",
+                               "\\u003cb\\u003e", "\\u0026amp;", "\\\\u003c", "<&>", "\\u2028", "\\t\\n", "\\101"])
         uniq = ""
         if self.o.unique:
             self.counter += 1
@@ -338,11 +339,18 @@ class Gen:
             c = self.uniq_expr(1, "bool")
             self.emit_expr(w, c)
             w.w(") ")
-            tb = self.emit_block(w, ind, depth - 1, 2, in_loop, ret)
+            def branch():
+                # a block, or the empty statement `;` (legal Java: `if (done) ; else retry();`)
+                if r.random() < 0.2:
+                    a = w.pos
+                    w.w(";")
+                    return dict(start=a, end=w.pos)
+                return self.emit_block(w, ind, depth - 1, 2, in_loop, ret)
+            tb = branch()
             eb = None
             if r.random() < 0.5:
                 w.w(" else ")
-                eb = self.emit_block(w, ind, depth - 1, 2, in_loop, ret)
+                eb = branch()
             self.ent("IfStmt", s, w.pos, cond="(" + self.expr_text(c) + ")", then_span=(tb["start"], tb["end"]),
                      else_span=(eb["start"], eb["end"]) if eb else None)
         elif k == "while":
@@ -523,7 +531,12 @@ class Gen:
             mods.append("static")
         if r.random() < 0.2:
             mods.append("final")
-        if mods:
+        if mods and len(anns) and len(mods) > len(anns) and r.random() < 0.35:
+            # legal but unconventional: keywords before / between the annotations
+            r.shuffle(mods)
+            anns = [m for m in mods if m.startswith("@")]
+            w.w(" ".join(mods) + " ")
+        elif mods:
             sep = r.choice([" ", self.o.eol + ind]) if anns else " "
             w.w(sep.join(mods[:len(anns)]) + (sep if anns else "") + " ".join(mods[len(anns):]) + (" " if mods[len(anns):] else ""))
         ret = r.choice(["void", "void", "int", "boolean", "String", "long", "Object", "int[]"])
@@ -587,6 +600,8 @@ class Gen:
             mods.append("abstract" if r.random() < 0.5 else "final")
         if ind and r.random() < 0.5:
             mods.append("static")
+        if anns and len(mods) > len(anns) and r.random() < 0.35:
+            r.shuffle(mods)
         w.w(" ".join(mods) + (" " if mods else "") + "class " + name)
         sup = None
         if r.random() < 0.4:
